@@ -68,6 +68,7 @@ type Seq struct {
 	lenientTo  map[int]bool          // sessions ending concurrently in this step: what else reaches them is not determined
 	metaRender map[invKey]MetaRender // (caller idx, request) -> renderer of the meta RESULT
 	MetaKill   bool
+	NetFaults  NetFaults
 	historyLearnt map[string]bool
 	IgnoreMetaOnce bool
 	MkRealm    func(uri string) (*router.RealmConfig, *MRealm) // for addrealm steps
